@@ -272,12 +272,12 @@ def infixLoop (prec : Nat) (left : Expr) : Nat → PM Expr
         | some .boolAnd => do
           let pos := (← get).prev.pos
           let rhs ← parsePrecedence precAnd f
-          if 1 + (compileE rhs).length > jumpMax then error (str "jump too long")
+          if 1 + sizeE rhs > jumpMax then error (str "jump too long")
           pure (Expr.and left rhs pos)
         | some .boolOr => do
           let pos := (← get).prev.pos
           let rhs ← parsePrecedence precOr f
-          if 1 + (compileE rhs).length > jumpMax then error (str "jump too long")
+          if 1 + sizeE rhs > jumpMax then error (str "jump too long")
           pure (Expr.or left rhs pos)
         | none => pure left
       infixLoop prec e f
